@@ -505,12 +505,19 @@ func runC01(ctx *core.Ctx) {
 		c01Models(ctx) // stage-level correspondence (c01_models.go)
 		c01UnicityLoop(ctx) // the seq / keys loop of enforceUnicity (c01_unicity.go)
 		c01Pipe(ctx, sch, rich) // the composed stage models vs LoadModelWithContext (c01_pipe.go)
+		c01Files(ctx)           // env_file / label_file resolution on a faulty disk (c01_files.go)
 	}
 	if only == "" || only == "schema" {
 		schemacorr.Run(ctx) // gojsonschema vs Schema.conforms (harness/schema.go): the tie behind Props/C01Schema.lean
 	}
 	if only == "repeat" {
 		c01Repeats(ctx)
+	}
+	if only == "files" {
+		c01Files(ctx)
+	}
+	if only == "unreadable" {
+		c01Unreadable(ctx)
 	}
 	if only == "names" {
 		c01Names(ctx, rich)
@@ -527,6 +534,7 @@ func runC01(ctx *core.Ctx) {
 		c01Tags(ctx, rich)
 		c01Names(ctx, rich)
 		c01Missing(ctx)
+		c01Unreadable(ctx)
 		c01Kinds(ctx, sch, rich)
 		c01Seqified(ctx, sch, rich) // a mapping on the way replaced by the list of its values (c01_seqified.go)
 		c01OptionLattice(ctx, sch, rich)
@@ -937,6 +945,86 @@ func c01Missing(ctx *core.Ctx) {
 		}
 	}
 	ctx.Note("missing-file stream: all %d subsets of %d referenced files × 3 entry points", 1<<len(names), len(names))
+}
+
+// unreadable rather than absent: a DIRECTORY where the referenced file should be (every referenced file, singly and in
+// pairs; the optional env file included: it exists, so it is not excused), and a FILE where its parent directory should
+// be (ENOTDIR: the loader's fileIsMissing counts that as absent).  Must be an error naming the path.
+func c01Unreadable(ctx *core.Ctx) {
+	all := map[string]string{
+		"compose.yml": "include:\n  - path: inc/inc.yml\n    env_file: inc/inc.env\nservices:\n  a:\n    extends:\n      file: base/base.yml\n      service: base\n" +
+			"    env_file:\n      - a.env\n      - path: opt.env\n        required: false\n    label_file:\n      - a.labels\n",
+		"over.yml":      "services:\n  a:\n    environment:\n      X: y\n",
+		"base/base.yml": "services:\n  base:\n    image: busybox\n",
+		"inc/inc.yml":   "services:\n  inc:\n    image: busybox\n",
+		"inc/inc.env":   "I=1\n",
+		"a.env":         "A=1\n",
+		"opt.env":       "O=1\n",
+		"a.labels":      "l=v\n",
+		"proj.env":      "P=1\n",
+	}
+	names := make([]string, 0, len(all))
+	for n := range all {
+		names = append(names, n)
+	}
+	sort.Strings(names)
+	build := func(dirs []string, parentFile string) map[string]string {
+		files := map[string]string{}
+		for n, c := range all {
+			files[n] = c
+		}
+		for _, d := range dirs {
+			delete(files, d)
+			files[d+"/.keep"] = ""
+		}
+		if parentFile != "" {
+			for n := range files {
+				if strings.HasPrefix(n, parentFile+"/") {
+					delete(files, n)
+				}
+			}
+			files[parentFile] = "not a directory\n"
+		}
+		return files
+	}
+	for _, mode := range []string{"", "cli", "model"} {
+		relevant := func(n string) bool {
+			switch {
+			case n == "proj.env" && mode != "cli":
+				return false
+			case mode == "model" && (n == "a.env" || n == "a.labels" || n == "opt.env"):
+				return false
+			}
+			return true
+		}
+		emit := func(files map[string]string, bad []string, what string) {
+			var bases []string
+			for _, b := range bad {
+				if relevant(b) {
+					bases = append(bases, filepath.Base(b))
+				}
+			}
+			exp := "ok"
+			if len(bases) > 0 {
+				exp = "missing:unreadable-" + what + ":" + strings.Join(bases, ",")
+			}
+			a := c01Args{Req: core.LoadReq{Files: files, ConfigFiles: []string{"compose.yml", "over.yml"}, ProjectName: "p"}, Mode: mode,
+				Shape: fmt.Sprintf("unreadable/%s/%s/%s", modeName(mode), what, strings.Join(bad, "+")), Expect: exp}
+			if mode == "cli" {
+				a.EnvFiles = []string{"proj.env"}
+			}
+			ctx.Count("unreadable-" + what)
+			ctx.Add("c01load", a)
+		}
+		for i, n := range names {
+			emit(build([]string{n}, ""), []string{n}, "dir")
+			for _, m := range names[i+1:] {
+				emit(build([]string{n, m}, ""), []string{n, m}, "dir")
+			}
+		}
+		emit(build(nil, "inc"), []string{"inc/inc.yml", "inc/inc.env"}, "parent-is-file")
+		emit(build(nil, "base"), []string{"base/base.yml"}, "parent-is-file")
+	}
 }
 
 // ---------------------------------------------------------------- byte-level mutations
